@@ -211,8 +211,12 @@ async fn transfer_udp(socket: UdpSocket, current: ServerConfig<SslConfig>) {
 #[cfg(feature = "verif")]
 #[allow(unused_imports)]
 pub mod verif {
+    pub use super::config::SslConfig;
     pub use super::handshake::Proxy;
     pub use super::handshake::verif_recognize_http as recognize_http;
+    pub async fn transfer_tcp(listener: tokio::net::TcpListener, current: octo_squirrel::config::ServerConfig<SslConfig>) {
+        super::transfer_tcp(listener, current).await
+    }
     pub mod shadowsocks_tcp {
         pub use super::super::shadowsocks::tcp::ClientContext;
         pub use super::super::shadowsocks::tcp::PayloadCodec;
